@@ -6,7 +6,7 @@ a destroyed object) - it knows nothing about expected behaviour.  All random
 choices come from random.Random(seed)."""
 import itertools, os, random, sys
 sys.path.insert(0, os.path.dirname(os.path.abspath(__file__)))
-from shapes import DERIVED, NSLOT, NMOCK, NSEQ, NOBJ, NMON, NTR, INF
+from shapes import DERIVED, NSLOT, NMOCK, NSEQ, NOBJ, NMON, NTR, INF, SCOPED_IDS
 
 TERMS_SMALL = [(0, 0), (1, 0), (1, 1), (2, 0), (3, 2), (6, 1)]
 BOUNDS_ALL = [(l, h) for l in range(0, 4) for h in list(range(0, 4)) + [INF] if True]
@@ -14,6 +14,7 @@ BOUNDS_ALL = [(l, h) for l in range(0, 4) for h in list(range(0, 4)) + [INF] if 
 class Live:
     def __init__(self):
         self.mocks, self.seqs, self.slots, self.objs, self.mons, self.trs = set(), set(), {}, set(), {}, []
+        self.scopes = []           # open scopes, innermost last: ('e', slot) or ('m', monitor)
         self.deadseq_users = False
 
 def expect_line(slot, shape, mock, p=((0, 0), (0, 0)), w=((0, 0), (0, 0), (0, 0)), se=(0, 0, 0), retv=None, lo=1, hi=1, q=(0, 0), nest=None):
@@ -30,7 +31,7 @@ class Profile:
     def __init__(self, name, shapes, weights, nmock=2, nseq=2, nslot=NSLOT, args=(0, 1, 2), terms=TERMS_SMALL,
                  bounds=((1, 1), (0, 1), (1, 2), (2, 2), (0, INF), (1, INF), (0, 0), (2, 3)), se_beh=(0,), seglen=(8, 30),
                  allow_bad_bounds=True, forbid_seq=False, fns=(1, 2, 3, 4), tracer_kinds=(1, 2), multi_mon=True,
-                 prelude=()):
+                 prelude=(), scoped_shapes=tuple(sorted(SCOPED_IDS))):
         self.__dict__.update(locals())
 
     def gen_segment(self, rnd):
@@ -48,6 +49,8 @@ class Profile:
             tries += 1
             k = rnd.choices(kinds, wts)[0]
             self.apply(k, L, rnd, add)
+        while L.scopes:
+            self.apply('endscope', L, rnd, add)
         return ops
 
     def apply(self, k, L, rnd, add):
@@ -88,6 +91,41 @@ class Profile:
             add(expect_line(s, sh, m, p, w, se, 100 * s + rnd.randint(0, 9), lo, hi, (q[0], q[1]), nest))
             if not (d['rt'] and lo > hi):
                 L.slots[s] = sh
+        elif k == 'scope':          # a scoped macro form: REQUIRE_CALL / ALLOW_CALL / FORBID_CALL (and _V): lifetime = the block
+            free = [s for s in range(1, P.nslot + 1) if s not in L.slots]
+            cands = [sh for sh in P.scoped_shapes if DERIVED[sh]['nq'] <= len(L.seqs)]
+            if not free or not L.mocks or not cands or len(L.scopes) >= 3:
+                return
+            s = rnd.choice(free)
+            sh = rnd.choice(cands)
+            d = DERIVED[sh]
+            m = rnd.choice(sorted(L.mocks))
+            lo, hi = rnd.choice([b for b in P.bounds if b[0] <= b[1] and b[1] > 0])
+            q = rnd.sample(sorted(L.seqs), d['nq']) + [0, 0]
+            p = (rnd.choice(P.terms), rnd.choice(P.terms))
+            w = tuple(rnd.choice(P.terms) if rnd.random() < 0.6 else (0, 0) for _ in range(3))
+            add('scope' + expect_line(s, sh, m, p, w, (0, 0, 0), 100 * s + rnd.randint(0, 9), lo, hi, (q[0], q[1]))[len('expect'):])
+            L.slots[s] = sh
+            L.scopes.append(('e', s))
+        elif k == 'mscope':         # scoped REQUIRE_DESTRUCTION
+            free = [x for x in range(1, NMON + 1) if x not in L.mons]
+            objs = sorted(L.objs) if P.multi_mon else [o for o in sorted(L.objs) if o not in L.mons.values()]
+            if not free or not objs or len(L.scopes) >= 3:
+                return
+            kk = rnd.choice(free); o = rnd.choice(objs)
+            nq = min(rnd.choice([0, 1, 2]) if L.seqs else 0, len(L.seqs))
+            q = rnd.sample(sorted(L.seqs), nq) + [0, 0]
+            L.mons[kk] = o
+            L.scopes.append(('m', kk))
+            add('mscope %d %d %d %d %d' % (kk, o, nq, q[0], q[1]))
+        elif k == 'endscope':
+            if L.scopes:
+                kind, ident = L.scopes.pop()
+                if kind == 'e':
+                    L.slots.pop(ident, None)
+                else:
+                    L.mons.pop(ident, None)
+                add('endscope')
         elif k == 'call':
             if not L.mocks:
                 return
@@ -102,8 +140,9 @@ class Profile:
             m = rnd.choice(sorted(L.mocks))
             add('call %d %d %d %d' % (m, f, rnd.choice(P.args), rnd.choice(P.args)))
         elif k == 'release':
-            if L.slots:
-                s = rnd.choice(sorted(L.slots)); del L.slots[s]; add('release %d' % s)
+            named = [s for s in sorted(L.slots) if ('e', s) not in L.scopes]
+            if named:
+                s = rnd.choice(named); del L.slots[s]; add('release %d' % s)
         elif k == 'dmock':
             if L.mocks:
                 m = rnd.choice(sorted(L.mocks)); L.mocks.discard(m); add('dmock %d' % m)
@@ -129,8 +168,9 @@ class Profile:
                 L.mons[kk] = o
                 add('watch %d %d %d %d %d' % (kk, o, nq, q[0], q[1]))
         elif k == 'unwatch':
-            if L.mons:
-                kk = rnd.choice(sorted(L.mons)); del L.mons[kk]; add('unwatch %d' % kk)
+            named = [x for x in sorted(L.mons) if ('m', x) not in L.scopes]
+            if named:
+                kk = rnd.choice(named); del L.mons[kk]; add('unwatch %d' % kk)
         elif k == 'dobj':
             if L.objs:
                 o = rnd.choice(sorted(L.objs)); L.objs.discard(o); add('dobj %d' % o)
@@ -161,7 +201,7 @@ SEQSH = [5, 6, 7, 8, 11, 25, 26, 27, 34, 44, 54, 56, 69]
 
 PROFILES = {
     'lifecycle': Profile('lifecycle', SIMPLE,
-                         dict(mock=3, expect=8, call=10, call_live=10, release=4, dmock=1.5, mmock=1.5), nmock=3,
+                         dict(mock=3, expect=8, call=10, call_live=10, release=4, dmock=1.5, mmock=1.5, scope=2.5, endscope=2.5), nmock=3,
                          prelude=('mock',)),
     'overlap': Profile('overlap', [2, 3, 5, 6, 7, 9, 10, 11, 26, 27, 30, 40, 50],
                        dict(mock=1, seq=2, expect=10, call=6, call_live=16, release=2, mmock=0.5), nmock=2, nseq=2,
@@ -171,15 +211,15 @@ PROFILES = {
                       dict(mock=0.5, expect=6, call=4, call_live=20, release=2), nmock=1, bounds=tuple(BOUNDS_ALL),
                       args=(0, 1), terms=[(0, 0), (1, 0), (1, 1)], prelude=('mock',), seglen=(10, 36)),
     'teardown': Profile('teardown', [2, 3, 5, 30, 40, 50, 9, 12, 17, 19],
-                        dict(mock=2, seq=0.5, expect=8, call=3, call_live=6, release=6, dmock=4, mmock=3), nmock=3, nseq=1,
+                        dict(mock=2, seq=0.5, expect=8, call=3, call_live=6, release=6, dmock=4, mmock=3, scope=3, endscope=3), nmock=3, nseq=1,
                         prelude=('mock', 'seq')),
     'sequences': Profile('sequences', SEQSH + [2, 9],
                          dict(mock=0.5, seq=2, expect=10, call_live=18, call=2, release=3, dseq=0.6, obj=1.5, watch=2.5,
-                              dobj=2, unwatch=0.7), nmock=2, nseq=3, args=(0, 1), terms=[(0, 0), (0, 0), (1, 0), (1, 1)],
+                              dobj=2, unwatch=0.7, scope=1.5, mscope=1, endscope=2.5), nmock=2, nseq=3, args=(0, 1), terms=[(0, 0), (0, 0), (1, 0), (1, 1)],
                          prelude=('mock', 'seq', 'seq'), multi_mon=False, seglen=(10, 34),
                          bounds=((1, 1), (0, 1), (1, 2), (2, 2), (0, INF), (1, INF), (2, 3))),
     'forbid': Profile('forbid', [12, 13, 14, 2, 9, 10, 1, 3, 33, 43, 53, 30, 40, 50, 23, 62, 63, 68, 65, 67, 64],
-                      dict(mock=1, expect=8, call=6, call_live=14, release=4, dmock=0.7), nmock=2,
+                      dict(mock=1, expect=8, call=6, call_live=14, release=4, dmock=0.7, scope=3, endscope=3), nmock=2,
                       bounds=((0, 0), (0, 0), (1, 1), (0, INF), (1, 2)), prelude=('mock',)),
     'clauses': Profile('clauses', [4, 8, 16, 21, 25, 31, 41, 51, 15, 55, 3, 10, 13],
                        dict(mock=0.5, seq=1, expect=8, call_live=14, call=3, release=2), nmock=1, nseq=2,
@@ -187,7 +227,7 @@ PROFILES = {
                        bounds=((1, 1), (0, INF), (1, 3), (2, 2))),
     'deathwatch': Profile('deathwatch', [5, 2],
                           dict(obj=6, watch=7, unwatch=4, dobj=6, cpobj=2, mvobj=2, asobj=2, masobj=2, seq=1, mock=0.3,
-                               expect=1, call_live=1), nmock=1, nseq=2, multi_mon=True, seglen=(6, 24), prelude=('obj',)),
+                               expect=1, call_live=1, mscope=3, endscope=3), nmock=1, nseq=2, multi_mon=True, seglen=(6, 24), prelude=('obj',)),
     'teardown_all': Profile('teardown_all', SIMPLE + SEQSH,
                             dict(mock=2, seq=2, expect=8, call=2, call_live=6, release=4, dmock=3, mmock=3, dseq=3, obj=2,
                                  watch=3, unwatch=2, dobj=2, cpobj=0.5, mvobj=0.5, asobj=0.5, masobj=0.5, tracer=2,
